@@ -561,10 +561,16 @@ def r10_5(cx):
         if why:
             break
     cx.report('R10.5', b, 'teddy', why is None, 'Teddy runs only on spans of at least teddy.minimum_len() bytes and receives (&haystack[..span.end], span.start); everything else goes to Rabin-Karp with the same window (%d input classes tabulated)' % n if why is None else why)
-    s = cx.body('packed::api::Searcher::find_in_slow')
-    srows = [r for r in summarize(cx.facts, s) if r.end == 'return']
+    if not cx.has('packed::api::Searcher::find_in_slow'):
+        # the fallback helper no longer exists: the table above already required a direct Rabin-Karp call with the right window
+        cx.report('R10.5', b, 'rabinkarp-slow', why is None, 'no separate short-haystack helper; find_in calls Rabin-Karp directly (decided by the dispatch table)' if why is None else 'no short-haystack helper and the dispatch table deviates')
+        s = None
+    else:
+        s = cx.body('packed::api::Searcher::find_in_slow')
+    srows = [r for r in summarize(cx.facts, s) if r.end == 'return'] if s is not None else []
     oks = bool(srows) and all(r.ret is not None and r.ret[0] == 'call' and is_rk(s, r.ret) for r in srows)
-    cx.report('R10.5', s, 'rabinkarp-slow', oks, 'the short-haystack fallback receives (&haystack[..span.end], span.start)' if oks else 'find_in_slow returns %s' % [tstr(canon(r.ret), 160) if r.ret else None for r in srows][:2])
+    if s is not None:
+        cx.report('R10.5', s, 'rabinkarp-slow', oks, 'the short-haystack fallback receives (&haystack[..span.end], span.start)' if oks else 'find_in_slow returns %s' % [tstr(canon(r.ret), 160) if r.ret else None for r in srows][:2])
     f = cx.body('packed::api::Searcher::find')
     t = strip_convs(expand_vars(f, f.local_term(0, expand=True)))
     ok = is_call(t, r'Searcher::find_in$') and is_agg(t[2][2], r'Range$') and t[2][2][3]['start'] == ('c', 0) and is_call(t[2][2][3]['end'], r'core::slice::len$')
